@@ -13,6 +13,8 @@
 (*   Outcome(kind, st)  how the PUT ended, as seen by the client/harness:  *)
 (*                      "reply"  the handler answered with status st       *)
 (*                      "crash"  the process was killed (st = 0)           *)
+(*   RivalAck           a second PUT of the same block, overlapping this   *)
+(*                      one, was answered 2xx                              *)
 (*   Restart            a new handler (process) is started on the same     *)
 (*                      volume directories                                 *)
 (*   Get(class)         reply to GET /H afterwards:                        *)
@@ -40,7 +42,8 @@
 (*  (a) "Once keepstore has answered 200 to a PUT, the complete block is   *)
 (*      retrievable from that server even if the process is killed         *)
 (*      immediately afterwards and a new process is started"               *)
-(*                      acked => Get = "complete" (GetOk), before and      *)
+(*                      acked (this PUT or an overlapping one of the same  *)
+(*                      block) => Get = "complete" (GetOk), before and     *)
 (*                      after Restart                                      *)
 (*  (b) "If the process dies, the client disconnects or the write fails at *)
 (*      any earlier instant, a later GET returns either an error status or *)
@@ -73,8 +76,12 @@ PutStartEff(p) == phase' = "running" /\ pre' = p /\ acked' = FALSE
 
 OutcomeOk(kind, st) == phase = "running" /\ kind \in {"reply", "crash"}
 OutcomeEff(kind, st) == /\ phase' = "ended"
-                        /\ acked' = (kind = "reply" /\ st >= 200 /\ st < 300)
+                        /\ acked' = (acked \/ (kind = "reply" /\ st >= 200 /\ st < 300))
                         /\ UNCHANGED pre
+
+(* a second, overlapping PUT of the same block to the same server was answered 2xx while this one is *)
+(* being processed: from now on (a) applies, whatever becomes of this one                            *)
+RivalAckEff == phase' = phase /\ pre' = pre /\ acked' = TRUE
 
 RestartEff == UNCHANGED pvars
 
@@ -97,6 +104,7 @@ ObserveEff == UNCHANGED pvars
 
 PutStart(p)        == phase = "idle" /\ p \in Pres /\ PutStartEff(p)
 Outcome(kind, st)  == OutcomeOk(kind, st) /\ OutcomeEff(kind, st)
+RivalAck           == phase = "running" /\ RivalAckEff
 Restart            == phase = "ended" /\ RestartEff
 Get(class)         == phase = "ended" /\ GetOk(class) /\ ObserveEff
 Index(entries)     == phase = "ended" /\ IndexOk(entries) /\ ObserveEff
